@@ -90,6 +90,16 @@ func ruleWatchSerialised(c *core.Ctx) {
 					}
 				}
 			}
+			if sel, ok := ast.Unparen(arg).(*ast.SelectorExpr); ok && body == nil {
+				// a method value (`regenerator.regenerate`)
+				if f, ok := info.Uses[sel.Sel].(*types.Func); ok {
+					if fd := c.Decl(f); fd != nil && fd.Body != nil {
+						body = fd.Body
+						subInfo = c.DeclPkg(fd).TypesInfo
+						subLits = map[types.Object]*ast.FuncLit{}
+					}
+				}
+			}
 			key := fmt.Sprintf("%s/%s %s", c.FuncName(d), how, name)
 			if body == nil {
 				c.Undecided(rule, key, pos.Pos(), "cannot resolve the function value started asynchronously")
@@ -120,7 +130,10 @@ func ruleWatchSerialised(c *core.Ctx) {
 					}
 					if f := core.Callee(subInfo, ce); f != nil && core.InModule(f) {
 						if f.Origin() == gi || c.PathTo(f.Origin(), func(g *types.Func) bool { return g == gi }, nil) != nil {
-							onlyViaLits = false
+							// a function or method of the module that takes the regeneration mutex itself is as good as a closure that does
+							if fd := c.Decl(f); fd == nil || fd.Body == nil || !locksFirst(c.DeclPkg(fd).TypesInfo, fd.Body) {
+								onlyViaLits = false
+							}
 						}
 					}
 					return true
@@ -129,7 +142,7 @@ func ruleWatchSerialised(c *core.Ctx) {
 					"goroutine reaches generateImpl outside the regeneration mutex")
 				return
 			}
-			ok := locksFirst(info, body)
+			ok := locksFirst(subInfo, body)
 			c.Check(ok, rule, key, pos.Pos(), "body runs under one mutex (Lock; defer Unlock)",
 				"regenerations started from a timer/goroutine are not mutually exclusive: two can overlap, share the cwd/koanf state, and the older one can write last")
 		}
@@ -298,7 +311,20 @@ func locksFirst(info *types.Info, body *ast.BlockStmt) bool {
 		return false
 	}
 	a, b := identObj(info, s1.X), identObj(info, s2.X)
-	return a != nil && a == b
+	if a != nil && a == b {
+		return true
+	}
+	// the mutex as a field of the receiver / of a local (`r.mutex.Lock(); defer r.mutex.Unlock()`)
+	root := func(e ast.Expr) types.Object {
+		for {
+			se, ok := ast.Unparen(e).(*ast.SelectorExpr)
+			if !ok {
+				return identObj(info, e)
+			}
+			e = se.X
+		}
+	}
+	return types.ExprString(s1.X) == types.ExprString(s2.X) && root(s1.X) != nil && root(s1.X) == root(s2.X)
 }
 
 // T4: every file-system event re-arms the regeneration. In the watcher loop of internal/cmd (the
